@@ -108,6 +108,8 @@ class Interp(HeapMixin, OpsMixin, StmtMixin, CallMixin):
         raise E.Unsupported(f"cannot wrap {ty}")
 
     def term_of(self, v, ty=None):
+        if ty is not None and ty[0] in ("any", "pyvalue", "astnode") and not isinstance(v, VAny):
+            return self.inject_deep(v) if isinstance(v, (VRef, VTuple)) and not (isinstance(v, VRef) and v.kind == "obj") else self.inject(v)
         if isinstance(v, (VInt, VReal, VBool, VStr, VEnum, VAny)):
             if ty is not None and ty[0] in ("real", "datetime", "timedelta") and isinstance(v, VInt):
                 return z3.ToReal(v.t)
